@@ -60,6 +60,11 @@ def getitem_at(e, idx, offset):
     return ("getitem_at", e, idx, offset)
 
 
+def constant(const_inputs, e):
+    """funsor.constant.Constant: e, declared constant with respect to extra (bounded-integer) inputs"""
+    return ("constant", tuple(const_inputs), e)
+
+
 def getslice(e, index):
     return ("getslice", e, index)
 
@@ -204,6 +209,14 @@ def type_of(e):
         if not sa or si != () or di == "real":
             raise IllTyped("getitem")
         return _merge(ia, ii), (da, sa[1:])
+    if tag == "constant":
+        _, cin, a = e
+        ia, out = type_of(a)
+        if any(k in ia for k, _ in cin):
+            raise IllTyped("constant inputs must be disjoint from the argument's")
+        ins = OrderedDict((k, ("bint", n)) for k, n in cin)
+        ins.update(ia)
+        return ins, out
     if tag == "getitem_at":
         _, a, idx, off = e
         ia, (da, sa) = type_of(a)
@@ -346,6 +359,8 @@ def show(e):
         return "Slice(%s,%d,%d,%d,%d)" % e[1:]
     if tag == "getitem":
         return "%s[%s]" % (show(e[1]), show(e[2]))
+    if tag == "constant":
+        return "Constant({%s}, %s)" % (",".join("%s:%d" % kn for kn in e[1]), show(e[2]))
     if tag == "getitem_at":
         return "%s[%s%s]" % (show(e[1]), ":," * e[3], show(e[2]))
     if tag == "getslice":
